@@ -168,3 +168,65 @@ class Permission(_TlsContract):
 
   def exit_getter_restored(self, old):
     return permissions.get_permission() is old['outer']
+
+
+# ---------------------------------------------------------------------------
+# pg.timeit: a class-based manager whose scope is the thread-local "current
+# timing context".
+
+from pyglove.core.utils import timing as _timing   # noqa: E402  pylint: disable=wrong-import-position
+
+TM = 'pyglove.core.utils.timing'
+_TIMING_KEY = '__timing_context__'
+
+
+@register
+class TimeItScope(_TlsContract):
+  """TimeIt.__enter__ / __exit__: inside the block this TimeIt is the current
+  timing context; on both exits the thread-local store is exactly as before
+  entering -- whatever this object's bookkeeping (`_parent`, `_end_time`) was
+  from an earlier use, and whether or not `end()` had already been called
+  inside the block."""
+  target = f'{TM}:TimeIt.__exit__'
+  name = 'timeit'
+  inline = (f'{TM}:TimeIt.__enter__', f'{TM}:TimeIt.__exit__')
+
+  def inputs(self, b):
+    # a TimeIt that may have been used before: stale parent, may have ended
+    stale = b.choice('stale_parent', [None, self.value(b, 'old_parent')])
+    self._cm = SObj(_timing.TimeIt, {'_name': 'r', '_parent': stale, '_start_time': None,
+                                     '_end_time': None, '_error': None,
+                                     '_child_contexts': SAny('children')}, name='timeit')
+    return {}, {}
+
+  def make_cm(self, interp, pyf, args):
+    return self._cm
+
+  def setup_policy(self, policy):
+    super().setup_policy(policy)
+    # timing bookkeeping does not touch the thread-local store
+    policy.contracts[f'{TM}:TimeIt.add'] = lambda interp, frame, a, k: None
+    policy.contracts[f'{TM}:TimeIt.start'] = lambda interp, frame, a, k: None
+    policy.contracts[f'{TM}:TimeIt.end'] = lambda interp, frame, a, k: SBool(z3.Bool('end_returns'))
+    policy.handlers[('identical',)] = absobj.identical_handler
+    from pyvc import interp as I
+
+    def getattr_h(interp, obj, name, frame):
+      # the enclosing timing context read from the store is another TimeIt
+      if isinstance(obj, SObj) and obj.cls is object and 'id' in obj.ghost and name == 'add':
+        return I.NativeFn(lambda ip, a, k: None)
+      return NotImplemented
+    policy.handlers[('getattr', SObj)] = getattr_h
+
+  @direct
+  def exit_frame_thread_confined(self, interp, env):
+    """Besides the thread-local store only this TimeIt's own bookkeeping
+    fields are written."""
+    bad = [e for e in interp.path.events if e.kind == 'write' and not (e.data and e.data[0] is self._cm)]
+    return len(bad) == 0
+
+  @direct
+  def inside_this_is_the_current_context(self, interp, env):
+    st = self.store(interp)
+    k = z3.StringVal(_TIMING_KEY)
+    return z3.And(z3.Select(st.has, k), z3.Select(st.val, k) == st.vid(interp, self._cm))
